@@ -20,8 +20,13 @@ instance (c : Ctl) (P : Slice → Prop) [DecidablePred P] (v : Pod) : Decidable 
   | some o =>
     simp only []
     have i1 : Decidable (NoRecompute c (some o) v) := inferInstance
-    have i2 : Decidable (podSig o = podSig v ∨ ∀ sl ∈ c.slices, ¬ P sl → ∀ ea ∈ sl.addrPairs, ea.1.target ≠ some (v.ns, v.name)) :=
+    have i2a : Decidable ((o.node ≠ v.node ∨ o.sa ≠ v.sa) ∧ ∀ sl ∈ c.slices, ¬ P sl → Refs sl v.ns v.name → sl.ns = v.ns) :=
       inferInstance
+    have i2b : Decidable (∀ sl ∈ c.slices, ¬ P sl → ∀ ea ∈ sl.addrPairs, ea.1.target ≠ some (v.ns, v.name)) := inferInstance
+    have i2 : Decidable (podSig o = podSig v ∨
+        ((o.node ≠ v.node ∨ o.sa ≠ v.sa) ∧ ∀ sl ∈ c.slices, ¬ P sl → Refs sl v.ns v.name → sl.ns = v.ns) ∨
+        ∀ sl ∈ c.slices, ¬ P sl → ∀ ea ∈ sl.addrPairs, ea.1.target ≠ some (v.ns, v.name)) :=
+      @instDecidableOr _ _ inferInstance (@instDecidableOr _ _ i2a i2b)
     have i3 : Decidable (o.ip = "" → v.ip ≠ "" → ∀ sl ∈ c.slices, ∀ ea ∈ sl.addrPairs,
         ea.1.target = some (v.ns, v.name) → ea.2 = v.ip) := inferInstance
     exact @instDecidableAnd _ _ i1 (@instDecidableAnd _ _ i2 i3)
@@ -133,6 +138,10 @@ instance (c d : Ctl) : Decidable (SameObjectsB c d) := by unfold SameObjectsB; e
 theorem sameObjects_of_b {c d : Ctl} (h : SameObjectsB c d) : SameObjects c d :=
   ⟨fun x => ⟨h.1.1 x, h.1.2 x⟩, fun x => ⟨h.2.1.1 x, h.2.1.2 x⟩, fun x => ⟨h.2.2.1.1 x, h.2.2.1.2 x⟩,
    fun x => ⟨h.2.2.2.1 x, h.2.2.2.2 x⟩⟩
+
+instance (v d : Option HostView) : Decidable (ViewAgree v d) := by
+  unfold ViewAgree
+  cases v <;> cases d <;> simp only [] <;> exact inferInstance
 
 /-! ### the cold start -/
 
